@@ -3,7 +3,7 @@
 Stages
   0. harness/props/c13_translate.py re-reads the schemathesis source and rewrites coq/theories/C13/Gen_C13.v (the entropy plan:
      one entry per draw site, Seeded/Ambient).  A call site that disappeared or changed shape -> broken tie.
-  1. proofs (Properties_C13.v: 20 theorems about run / gen_sites / interleave).
+  1. proofs (Properties_C13.v: 22 theorems about run / gen_sites / interleave).
   2. correspondence, plan vs runtime: the engine is run in fresh subprocesses with the Hypothesis boundary instrumented
      (harness/props/c13_runner.py): every PRNG Hypothesis hands to a test is recorded with its explicit seed and whether it was
      consulted.  Compared with the SAME Gallina definitions the theorems are about, evaluated by vm_compute:
@@ -15,7 +15,8 @@ Stages
      single-/multi-file: request sequences (method, target, headers without the per-case id, body) and reported failures must
      be equal for one worker; for 2-3 workers the per-operation multisets must equal the 1-worker ones.
      Every divergence is classified against the Ambient sites of the generated plan using the recorded evidence (an unseeded
-     PRNG was consulted / a multipart boundary was drawn / only PYTHONHASHSEED differs): known finding, or violation.
+     PRNG was consulted / a multipart boundary was drawn): known finding, or violation.  A divergence that only a different
+     PYTHONHASHSEED explains is a violation (findings F4 / F5 are fixed, the plan has no HashOrder site).
 """
 from __future__ import annotations
 
@@ -249,19 +250,6 @@ def evidence(run: dict, phase: str) -> dict:
     }
 
 
-def req_shape(r) -> str:
-    """Everything of a request except the generated VALUES: method, path depth, header names, query parameter names.  A different
-    pool of constants (finding F6) changes drawn strings only, never this."""
-    from urllib.parse import parse_qsl
-
-    path, _, query = r["target"].partition("?")
-    return json.dumps([r["method"], op_key(r), path.count("/"), sorted(k for k, _ in r["headers"]), sorted(k for k, _ in parse_qsl(query, keep_blank_values=True))])
-
-
-def same_shapes(a: list, b: list) -> bool:
-    return Counter(map(req_shape, a)) == Counter(map(req_shape, b))
-
-
 def first_diff(a: list, b: list):
     for i, (x, y) in enumerate(zip(a, b)):
         if x != y:
@@ -318,15 +306,12 @@ class Scenario:
 
 
 def region_for(kind: str, phase: str, negative: bool) -> str:
-    """Region names of the listed findings; anything else (an ambient kind in a phase where no finding is listed) stays unlisted."""
+    """Region names of the listed findings; anything else (an ambient kind in a phase where no finding is listed) stays unlisted.
+    HashOrder has no region any more (F4, F5 are fixed): a divergence that only PYTHONHASHSEED explains is a violation."""
     if kind == "Unseeded" and phase in ("examples", "coverage"):
         return f"unseeded_draw_{phase}"
     if kind == "OsRandom":
         return "multipart_boundary"
-    if kind == "HashOrder" and phase == "examples":
-        return "hash_order_examples"
-    if kind == "HashOrder" and phase in ("fuzzing", "stateful") and negative:
-        return "hash_order_negative_mutation"
     return f"unlisted_{kind}_{phase}"
 
 
@@ -357,8 +342,9 @@ def compare_pair(chk, plan, sc: Scenario, seed, label: str, r1: dict, r2: dict, 
             kinds.append("Unseeded")
         if e1["boundary"] or e2["boundary"]:
             kinds.append("OsRandom")
-        if e1["pool"] != e2["pool"] and len(a) == len(b) and same_shapes(a, b):
-            # (only the values drawn from the pool can differ: the number of requests stays the same)
+        if e1["pool"] != e2["pool"] and len(a) == len(b) and not sc.preimport:
+            # (a different constant changes the values and whatever is drawn after it, never the number of examples; scenarios that
+            #  import everything and build the pool before the engine starts are exempt: there the pool cannot differ)
             # foreign ambient state, not a site of the schemathesis source: attributed directly (finding F6), not through the plan
             chk.count(f"attributed:LocalConstants:{phase}")
             chk.fail("same seed, different requests (Hypothesis local-constants pool differs)", case, None, region="hypothesis_local_constants_pool")
@@ -478,8 +464,10 @@ def run(chk: core.Check):
         Scenario("w-coverage-negative", W_COVERAGE, ["coverage"], ["negative"]),
         Scenario("w-coverage-positive", W_EXAMPLES, ["coverage"]),
         Scenario("w-multipart-fuzzing", W_MULTIPART, ["fuzzing"], multipart=True),
-        Scenario("w-negative-fuzzing", W_NEG_FUZZ, ["fuzzing"], ["negative"]),
-        Scenario("w-swagger2-examples", W_SW2, ["examples"]),
+        # regression scenarios of the fixed findings F4 / F5 (same seed under different PYTHONHASHSEED must agree)
+        Scenario("w-negative-fuzzing", W_NEG_FUZZ, ["fuzzing"], ["negative"], strict=True),
+        Scenario("w-negative-stateful-and-fuzzing", W_EXAMPLES, ["fuzzing"], ["positive", "negative"], max_examples=6),
+        Scenario("w-swagger2-examples", W_SW2, ["examples"], strict=True),
         Scenario("stateful-ok", stateful_schema(), ["stateful"], max_examples=4, strict=True),
         Scenario("stateful-failing", stateful_schema(), ["stateful"], responder="fail500", max_examples=4, strict=True),
         Scenario("stateful-negative", stateful_schema(), ["stateful"], ["negative"], max_examples=3),
@@ -502,7 +490,7 @@ def run(chk: core.Check):
     for i in range((1 if quick else 10) * mult):
         raw, hdrs, ov = with_overrides(rng, gen_schema(rng, rng.randint(2, 4)))
         scenarios.append(Scenario(f"cfg{i}-headers-overrides", raw, ["examples", "coverage", "fuzzing"], rng.choice([["positive"], ["positive", "negative"]]),
-                                  headers=hdrs, override=ov, strict=True))
+                                  headers=hdrs, override=ov, strict=True, preimport=True))
     seeds = {sc.name: rng.choice([0, 1, 2**31, 2**64 + 3]) if rng.random() < 0.3 else rng.randrange(1, 10**6) for sc in scenarios}
     hash_a = str(rng.randrange(0, 1000))
     hash_b = str(rng.randrange(1000, 2000))
@@ -611,7 +599,7 @@ def run(chk: core.Check):
                 chk.seen({"workers": [sc.name, w, phase]}, len(a) >= 2)
                 bad = [op for op in ops if Counter(req_key(r) for r in a if op_key(r) == op) != Counter(req_key(r) for r in b if op_key(r) == op)]
                 same_counts = all(sum(1 for r in a if op_key(r) == op) == sum(1 for r in b if op_key(r) == op) for op in ops)
-                if bad and ev1["pool"] != evn["pool"] and same_counts and same_shapes(a, b):
+                if bad and ev1["pool"] != evn["pool"] and same_counts and not sc.preimport:
                     wstage["attributed_local_constants"] = wstage.get("attributed_local_constants", 0) + 1
                     chk.fail(f"{w} workers: per-operation multiset differs (Hypothesis local-constants pool changed while other workers imported modules)",
                              {"scenario": sc.name, "seed": seeds[sc.name], "phase": phase, "workers": w, "operations": bad}, {"pool_one": ev1["pool"], "pool_many": evn["pool"]},
@@ -619,8 +607,10 @@ def run(chk: core.Check):
                     continue
                 if bad:
                     chk.fail(f"{w} workers: per-operation multiset of requests differs from the 1-worker run",
-                             {"scenario": sc.name, "seed": seeds[sc.name], "phase": phase, "workers": w, "operations": bad, "schema": sc.schema},
-                             {"one": len(a), "many": len(b)})
+                             {"scenario": sc.name, "seed": seeds[sc.name], "phase": phase, "workers": w, "operations": bad, "schema": sc.schema,
+                              "headers": sc.headers, "override": sc.override, "slow_prefix": sc.slow_prefix},
+                             {"one": len(a), "many": len(b),
+                              "example": first_diff(sorted((r for r in a if op_key(r) == bad[0]), key=req_key), sorted((r for r in b if op_key(r) == bad[0]), key=req_key))})
                     continue
                 # order-preserving interleaving, decided by the Coq definition
                 ids = {}
